@@ -113,6 +113,9 @@ func (f *Frame) lookupAtEnd(name string, b *ssa.BasicBlock, st *State) (Val, boo
 		}
 		v, ok := f.vals[d.val]
 		if !ok {
+			if di, isInstr := d.val.(ssa.Instruction); isInstr && di.Block() == b {
+				continue // defined later in this block than the current program point (call-site assertions)
+			}
 			v = f.val(d.val)
 		}
 		if d.addr {
@@ -264,6 +267,11 @@ func (f *Frame) applyContract(cur *blockCur, in ssa.Instruction, con *Contract, 
 			post = post.set(g, c.declare(fmt.Sprintf("hv%d_effects", c.havocSeq), "Int"))
 		}
 		cur.st = post
+		if !con.Pure {
+			// the callee may have allocated: the allocation watermark is unknown, not lower than before (alloc.go)
+			f.bumpAlloc(cur)
+			post = cur.st
+		}
 	}
 	// results
 	res := f.freshVal(rt, hint)
@@ -272,6 +280,47 @@ func (f *Frame) applyContract(cur *blockCur, in ssa.Instruction, con *Contract, 
 		res = Val{T: rt, S: c.define(hint+"_pure", c.so.sortOf(rt), pv.S)}
 	}
 	cur.assume(f.typeInv(res))
+	// a repository function whose returned slice is, on every return path, rooted in its own make/append (syntactic
+	// check): the caller may rely on the backing array being new (or nil) — distinct from everything it holds
+	if callee != nil && len(callee.Blocks) > 0 && con.Options["result-array"] == "" {
+		comps := []Val{res}
+		if res.Tup != nil {
+			comps = res.Tup
+		}
+		for i, rv := range comps {
+			if rv.T == nil {
+				continue
+			}
+			if _, isSlice := rv.T.Underlying().(*types.Slice); isSlice && resultIsLocal(callee, i) {
+				fr := f.freshRef(cur, fmt.Sprintf("%s_r%d_arr", hint, i))
+				cur.assume(fmt.Sprintf("(or (= (s_ref %s) 0) (= (s_ref %s) %s))", rv.S, rv.S, fr))
+				c.assume("slice returned by " + calleeName + " is backed by memory that function allocated (syntactic: every returned value is rooted in its own make/append)")
+			}
+		}
+	}
+	// `option result-array=fresh` / `option result-array=append:PARAM`: where the backing array of a returned slice
+	// comes from (newly allocated, or PARAM's array when the result starts where PARAM starts). Without it the
+	// result may alias any existing array.
+	if opt := con.Options["result-array"]; opt != "" && res.Tup == nil {
+		if _, isSlice := rt.Underlying().(*types.Slice); isSlice {
+			fr := f.freshRef(cur, hint+"_arr")
+			isFresh := fmt.Sprintf("(and (= (s_ref %s) %s) (= (s_off %s) %s))", res.S, fr, res.S, c.so.idxLit(0))
+			if strings.HasPrefix(opt, "append:") {
+				src, ok := env.names[strings.TrimPrefix(opt, "append:")]
+				if !ok {
+					f.unsupported("result-array of %s: no parameter %s", calleeName, opt)
+				}
+				cur.assume(fmt.Sprintf("(or %s (and (= (s_ref %s) (s_ref %s)) (= (s_off %s) (s_off %s)) (<= (s_len %s) (s_cap %s)) (= (s_cap %s) (s_cap %s))))",
+					isFresh, res.S, src.S, res.S, src.S, res.S, src.S, res.S, src.S))
+			} else {
+				cur.assume(isFresh)
+			}
+		}
+	}
+	// whatever references the result carries exist now: they are at most the current allocation watermark
+	if !con.Pure {
+		cur.assume(c.refBound(res, cur.st.watermark()))
+	}
 	// a callee that may panic under a stated condition: the caller must be allowed to panic then
 	if len(con.PanicsWhen) > 0 {
 		var alts []string
@@ -315,6 +364,9 @@ func (f *Frame) applyContract(cur *blockCur, in ssa.Instruction, con *Contract, 
 		}
 	}
 	for _, cl := range con.Ensures {
+		if strings.Contains(cl.Label, "where-defined") {
+			continue // speaks about the callee's local variables: proved inside the callee, of no use to callers
+		}
 		t, err := penv.evalBool(cl.Expr)
 		if err != nil {
 			f.unsupported("ensures of %s: %v", calleeName, err)
@@ -492,6 +544,9 @@ func (e *Engine) verifyFunc(con *Contract) *FuncResult {
 		if ti := f.typeInv(v); ti != "true" {
 			facts = append(facts, ti)
 		}
+		if rb := c.refBound(v, st.watermark()); rb != "true" {
+			facts = append(facts, rb) // arguments exist at entry: at most the entry allocation watermark
+		}
 		if isPointerLike(p.Type()) {
 			c.inputRefs = append(c.inputRefs, v.S)
 			if pt, ok := p.Type().Underlying().(*types.Pointer); ok && c.hasTypeInv(pt.Elem()) {
@@ -515,7 +570,7 @@ func (e *Engine) verifyFunc(con *Contract) *FuncResult {
 	for _, fv := range fn.FreeVars {
 		v := f.freshVal(fv.Type(), "fv_"+fv.Name())
 		f.vals[fv] = v
-		facts = append(facts, fmt.Sprintf("(not (= %s 0))", v.S))
+		facts = append(facts, fmt.Sprintf("(not (= %s 0))", v.S), fmt.Sprintf("(<= %s %s)", v.S, st.watermark()))
 		f.nonNilRoots()[v.S] = true
 		c.inputRefs = append(c.inputRefs, v.S)
 		// captured variable: its value at entry is an input of the closure
@@ -573,6 +628,10 @@ func (e *Engine) verifyFunc(con *Contract) *FuncResult {
 		res.Err = err
 		return res
 	}
+	if err := f.unmatchedAsserts(); err != nil {
+		res.Err = err
+		return res
+	}
 	f.frameObligations()
 	return res
 }
@@ -617,16 +676,29 @@ func (f *Frame) frameObligations() {
 		c.eng.computeSummaries()
 		if s := c.eng.summaries[f.fn]; s != nil && !s.bad {
 			allowed := map[int]bool{}
+			allowedDeep := map[int]bool{}
 			okForm := true
 			for _, item := range con.Modifies {
-				if !strings.HasPrefix(item, "*") || strings.ContainsAny(item, ".[") {
+				name, deepItem := "", false
+				switch {
+				case strings.HasPrefix(item, "(*") && strings.HasSuffix(item, ")[*]") && !strings.Contains(item, "."):
+					name, deepItem = item[2:len(item)-4], true // (*p)[*]: elements of the slice p points to
+				case strings.HasPrefix(item, "*") && !strings.ContainsAny(item, ".["):
+					name = item[1:]
+				default:
 					okForm = false
+				}
+				if !okForm {
 					break
 				}
 				found := false
 				for i, p := range f.fn.Params {
-					if p.Name() == item[1:] {
-						allowed[i] = true
+					if p.Name() == name {
+						if deepItem {
+							allowedDeep[i] = true
+						} else {
+							allowed[i] = true
+						}
 						found = true
 					}
 				}
@@ -638,6 +710,11 @@ func (f *Frame) frameObligations() {
 				within := true
 				for i := range s.writes {
 					if !allowed[i] {
+						within = false
+					}
+				}
+				for i := range s.deep {
+					if !allowedDeep[i] {
 						within = false
 					}
 				}
